@@ -30,6 +30,12 @@ impl TextResource {
             r is Ok ==> r->Ok_0 <= self.len() && cb(self.txt(), r->Ok_0 as int) == Some(bytecursor),
     { unimplemented!() }
 
+    /// stands for `impl Text for TextResource { fn textlen }`: the length of the text in codepoints
+    #[verifier::external_body]
+    pub fn textlen(&self) -> (r: usize)
+        ensures r == self.len(),
+    { unimplemented!() }
+
     /// stands for Text::subslice_utf8_offset on the resource (pointer arithmetic): the byte offset at which
     /// a slice of this resource's text begins.  Trusted.
     #[verifier::external_body]
